@@ -136,111 +136,6 @@ theorem getElem?_set_sig (l : List Sig) (m k : Nat) (g' : Sig) (h : m < l.length
     (l.set m g')[k]? = if m = k then some g' else l[k]? := by
   rw [List.getElem?_set]; simp [h]
 
-/-- the module leaves RUNNING/… for STOPPED or PAUSED, its context's counter follows -/
-theorem inv_stop (s : St) (m : ModId) (g : Sig) (x : MState) (hI : Inv s) (hg : s.sigs[m]? = some g)
-    (hx : x = .stopped ∨ (x = .paused ∧ g.inCtx = true)) :
-    Inv (setState (if stateIs s m .running then s.updCtxId (s.ctxIdOf m) (fun c => { c with running := c.running - 1 }) else s) m x) := by
-  have hlt : m < s.sigs.length := (List.getElem?_eq_some_iff.mp hg).1
-  have hxr : x ≠ .running := by rcases hx with h | ⟨h, _⟩ <;> (rw [h]; decide)
-  rw [stateIs_sig s m g hg, ctxIdOf_eq s m g hg]
-  by_cases hr : (g.state == .running) = true
-  · simp only [hr, if_true]
-    have hsig : (setState (s.updCtxId g.ctxId fun c => { c with running := c.running - 1 }) m x).sigs = s.sigs.set m (g.setState x) := by
-      rw [setState_sigs]; simp [hg]
-    refine ⟨fun c hc => ?_, ?_, ?_⟩
-    · rw [hsig]
-      simp only [setState_ctx] at hc
-      rw [updCtxId_ctx] at hc
-      cases hcx : s.ctx with
-      | none => simp [hcx] at hc
-      | some c0 =>
-        rw [hcx] at hc
-        have h0 := hI.run c0 hcx
-        by_cases hid : (c0.id == g.ctxId) = true
-        · simp only [hid, if_true, Option.some.injEq] at hc
-          subst hc
-          have := runCount_set s.sigs m g (g.setState x) c0.id hg
-          have e1 : (g.state == .running && g.ctxId == c0.id) = true := by
-            simp at hid hr ⊢; exact ⟨hr, hid.symm⟩
-          have e2 : ((g.setState x).state == .running && (g.setState x).ctxId == c0.id) = false := by
-            simp [Sig.setState]; intro h; exact absurd h hxr
-          rw [e1, e2] at this
-          simp only [if_true] at this
-          simp at this ⊢
-          omega
-        · simp only [hid, Bool.false_eq_true, if_false, Option.some.injEq] at hc
-          subst hc
-          have := runCount_set s.sigs m g (g.setState x) c0.id hg
-          have e1 : (g.state == .running && g.ctxId == c0.id) = false := by
-            simp at hid ⊢; intro _ h; exact hid h.symm
-          have e2 : ((g.setState x).state == .running && (g.setState x).ctxId == c0.id) = false := by
-            simp [Sig.setState]; intro h; exact absurd h hxr
-          rw [e1, e2] at this
-          simp at this
-          rw [h0]; exact this.symm
-    · rw [hsig]
-      intro k g' hk hin
-      rw [getElem?_set_sig _ _ _ _ hlt] at hk
-      by_cases hmk : m = k
-      · simp [hmk] at hk; subst hk
-        simp [Sig.setState] at hin ⊢
-        rcases hx with h | ⟨_, h2⟩
-        · left; exact h
-        · rw [h2] at hin; cases hin
-      · simp [hmk] at hk; exact hI.out k g' hk hin
-    · rw [hsig]
-      intro k n g1 g2 hk hn h1 h2 hname
-      rw [getElem?_set_sig _ _ _ _ hlt] at hk hn
-      by_cases hmk : m = k <;> by_cases hmn : m = n
-      · rw [← hmk, ← hmn]
-      · simp [hmk] at hk; simp [hmn] at hn; subst hk
-        simp [Sig.setState] at h1 hname
-        rw [← hmk]; exact hI.names m n g g2 hg hn h1 h2 hname
-      · simp [hmk] at hk; simp [hmn] at hn; subst hn
-        simp [Sig.setState] at h2 hname
-        rw [← hmn]; exact hI.names k m g1 g hk hg h1 h2 hname
-      · simp [hmk] at hk; simp [hmn] at hn
-        exact hI.names k n g1 g2 hk hn h1 h2 hname
-  · simp only [hr, Bool.false_eq_true, if_false]
-    have hsig : (setState s m x).sigs = s.sigs.set m (g.setState x) := by
-      rw [setState_sigs]; simp [hg]
-    refine ⟨fun c hc => ?_, ?_, ?_⟩
-    · rw [hsig]
-      simp only [setState_ctx] at hc
-      have h0 := hI.run c hc
-      have := runCount_set s.sigs m g (g.setState x) c.id hg
-      have e1 : (g.state == .running && g.ctxId == c.id) = false := by
-        simp at hr ⊢; intro h; exact absurd h hr
-      have e2 : ((g.setState x).state == .running && (g.setState x).ctxId == c.id) = false := by
-        simp [Sig.setState]; intro h; exact absurd h hxr
-      rw [e1, e2] at this
-      simp at this
-      rw [h0]; exact this.symm
-    · rw [hsig]
-      intro k g' hk hin
-      rw [getElem?_set_sig _ _ _ _ hlt] at hk
-      by_cases hmk : m = k
-      · simp [hmk] at hk; subst hk
-        simp [Sig.setState] at hin ⊢
-        rcases hx with h | ⟨_, h2⟩
-        · left; exact h
-        · rw [h2] at hin; cases hin
-      · simp [hmk] at hk; exact hI.out k g' hk hin
-    · rw [hsig]
-      intro k n g1 g2 hk hn h1 h2 hname
-      rw [getElem?_set_sig _ _ _ _ hlt] at hk hn
-      by_cases hmk : m = k <;> by_cases hmn : m = n
-      · rw [← hmk, ← hmn]
-      · simp [hmk] at hk; simp [hmn] at hn; subst hk
-        simp [Sig.setState] at h1 hname
-        rw [← hmk]; exact hI.names m n g g2 hg hn h1 h2 hname
-      · simp [hmk] at hk; simp [hmn] at hn; subst hn
-        simp [Sig.setState] at h2 hname
-        rw [← hmn]; exact hI.names k m g1 g hk hg h1 h2 hname
-      · simp [hmk] at hk; simp [hmn] at hn
-        exact hI.names k n g1 g2 hk hn h1 h2 hname
-
-
 /-- generic: one module's signature is replaced (same name, not re-entering the table) -/
 theorem inv_set (s s' : St) (m : ModId) (g g' : Sig) (hI : Inv s) (hg : s.sigs[m]? = some g)
     (hs : s'.sigs = s.sigs.set m g') (hname : g'.name = g.name) (hin : g'.inCtx = true → g.inCtx = true)
@@ -265,6 +160,89 @@ theorem inv_set (s s' : St) (m : ModId) (g g' : Sig) (hI : Inv s) (hg : s.sigs[m
       rw [← hmn]; exact hI.names k m g1 g hk hg h1 (hin h2) (by rw [hnm, hname])
     · simp [hmk] at hk; simp [hmn] at hn
       exact hI.names k n g1 g2 hk hn h1 h2 hnm
+
+theorem updMod_leave_sigs (s : St) (m : ModId) :
+    (s.updMod m fun x => { x with inCtx := false }).sigs =
+      match s.sigs[m]? with | some g => s.sigs.set m { g with inCtx := false } | none => s.sigs := by
+  unfold St.updMod
+  rw [sigs_getElem?]
+  cases h : s.mods[m]? with
+  | none => simp
+  | some md => simp [St.sigs, List.map_set, Mod.sig]
+
+/-- the signature `stop()` leaves behind -/
+def Sig.stopped (g : Sig) (x : MState) (leave : Bool) : Sig :=
+  { g with state := x, inCtx := if leave then false else g.inCtx }
+
+theorem stopStep_sigs (s : St) (m : ModId) (g : Sig) (x : MState) (leave : Bool) (hg : s.sigs[m]? = some g) :
+    (stopStep s m x leave).sigs = s.sigs.set m (g.stopped x leave) := by
+  have hlt : m < s.sigs.length := (List.getElem?_eq_some_iff.mp hg).1
+  have hget : s.sigs[m] = g := (List.getElem?_eq_some_iff.mp hg).2
+  unfold stopStep
+  rw [setState_sigs]
+  cases leave with
+  | false =>
+    by_cases hr : stateIs s m .running = true <;> simp [hr, hg, Sig.stopped, Sig.setState]
+  | true =>
+    simp only [if_true]
+    rw [updMod_leave_sigs]
+    by_cases hr : stateIs s m .running = true <;>
+      simp [hr, hg, Sig.stopped, Sig.setState, List.getElem?_set, hlt, List.set_set, hget]
+
+theorem stopStep_ctx (s : St) (m : ModId) (x : MState) (leave : Bool) :
+    (stopStep s m x leave).ctx =
+      (if stateIs s m .running then s.updCtxId (s.ctxIdOf m) (fun c => { c with running := c.running - 1 }) else s).ctx := by
+  unfold stopStep
+  cases leave <;> simp
+
+/-- the module leaves RUNNING/… for STOPPED or PAUSED (and possibly the table), its context's counter follows -/
+theorem inv_stop (s : St) (m : ModId) (g : Sig) (x : MState) (leave : Bool) (hI : Inv s) (hg : s.sigs[m]? = some g)
+    (hx : x = .stopped ∨ (x = .paused ∧ g.inCtx = true ∧ leave = false)) : Inv (stopStep s m x leave) := by
+  have hxr : x ≠ .running := by rcases hx with h | ⟨h, _⟩ <;> (rw [h]; decide)
+  refine inv_set s _ m g (g.stopped x leave) hI hg (stopStep_sigs s m g x leave hg) rfl ?_ ?_ ?_
+  · intro h; cases leave <;> simp [Sig.stopped] at h ⊢; exact h
+  · intro h
+    rcases hx with hx | ⟨_, hin, hl⟩
+    · left; simp [Sig.stopped, hx]
+    · subst hl; simp [Sig.stopped, hin] at h
+  · intro c hc
+    rw [stopStep_ctx, stateIs_sig s m g hg, ctxIdOf_eq s m g hg] at hc
+    have key := runCount_set s.sigs m g (g.stopped x leave)
+    have e2 : ∀ id, ((g.stopped x leave).state == .running && (g.stopped x leave).ctxId == id) = false := by
+      intro id; simp [Sig.stopped]; intro h; exact absurd h hxr
+    by_cases hr : (g.state == .running) = true
+    · simp only [hr, if_true] at hc
+      rw [updCtxId_ctx] at hc
+      cases hcx : s.ctx with
+      | none => simp [hcx] at hc
+      | some c0 =>
+        rw [hcx] at hc
+        have h0 := hI.run c0 hcx
+        by_cases hid : (c0.id == g.ctxId) = true
+        · simp only [hid, if_true, Option.some.injEq] at hc
+          subst hc
+          have := key c0.id hg
+          have e1 : (g.state == .running && g.ctxId == c0.id) = true := by
+            simp at hid hr ⊢; exact ⟨hr, hid.symm⟩
+          rw [e1, e2] at this
+          simp at this ⊢
+          omega
+        · simp only [hid, Bool.false_eq_true, if_false, Option.some.injEq] at hc
+          subst hc
+          have := key c0.id hg
+          have e1 : (g.state == .running && g.ctxId == c0.id) = false := by
+            simp at hid ⊢; intro _ h; exact hid h.symm
+          rw [e1, e2] at this
+          simp at this
+          rw [h0]; exact this.symm
+    · simp only [hr, Bool.false_eq_true, if_false] at hc
+      have h0 := hI.run c hc
+      have := key c.id hg
+      have e1 : (g.state == .running && g.ctxId == c.id) = false := by
+        simp at hr ⊢; intro h; exact absurd h hr
+      rw [e1, e2] at this
+      simp at this
+      rw [h0]; exact this.symm
 
 /-- entering RUNNING from a non-RUNNING state, the context's counter follows -/
 theorem inv_start (s : St) (m : ModId) (g : Sig) (hI : Inv s) (hg : s.sigs[m]? = some g)
